@@ -42,7 +42,10 @@ def run(item_id, spec, repo, workdir):
         open(src_path, 'w').write(h)
         out['source'] = src_path
         t0 = time.time()
-        c = subprocess.run(['rustc', '--edition', '2024', '-O', '-A', 'warnings', '-o', exe, src_path],
+        cfgs = []
+        for cf in b.get('cfgs', []):
+            cfgs += ['--cfg', cf]
+        c = subprocess.run(['rustc', '--edition', '2024', '-O', '-A', 'warnings'] + cfgs + ['-o', exe, src_path],
                            capture_output=True, text=True, timeout=300)
         if c.returncode != 0:
             out['detail'] = 'the real function text does not compile stand-alone: ' + c.stderr.strip()[:600]
@@ -63,7 +66,7 @@ def run(item_id, spec, repo, workdir):
             out['detail'] = 'harness ended abnormally (rc %s): %s' % (r.returncode, (r.stderr or r.stdout)[-400:])
             return out
         out['status'] = 'witness' if out['witnesses'] else 'clean'
-        out['cmd'] = 'rustc --edition 2024 -O -o h %s && ./h' % os.path.basename(src_path)
+        out['cmd'] = 'rustc --edition 2024 -O %s -o h %s && ./h' % (' '.join(cfgs), os.path.basename(src_path))
     except subprocess.TimeoutExpired:
         out['detail'] = 'timeout'
     except (KeyError, ValueError, R.LexError, weave.Undecided, OSError) as e:
